@@ -1,6 +1,7 @@
 """Run every seeded change of /verif/seeded against its property's check and write seeded/RESULTS.md (+ verif_result in each meta.json).
 Each run applies the patch to /repo (under the work-tree lock), confirms the demo, runs ./check <prop>, and restores /repo."""
 import json
+import os
 import re
 import subprocess
 import sys
@@ -23,7 +24,9 @@ for d in sorted((ROOT / "seeded").iterdir()):
     if m:
         d0, d1, rc, nv, nw, obls = m.groups()
         res = {"demo_without_change": int(d0), "demo_with_change": int(d1), "check_exit": int(rc), "violations": int(nv), "with_concrete_witness": int(nw),
-               "first_obligations": obls.strip(), "command": f"tools/run_seed.sh seeded/{d.name}  (git -C /repo apply patch.diff; ./check {meta['property']}; git -C /repo checkout -- .)"}
+               "first_obligations": obls.strip(), "command": (f"SEED_SCRATCH=1 tools/run_seed.sh seeded/{d.name}  (patch.diff applied to a scratch copy of /repo/src; demo.py with and without it; ./check {meta['property']} on the copy)"
+                           if os.environ.get("SEED_SCRATCH") else
+                           f"tools/run_seed.sh seeded/{d.name}  (git -C /repo apply patch.diff; ./check {meta['property']}; git -C /repo checkout -- .)")}
     else:
         res = {"error": line}
     meta["verif_result"] = res
@@ -41,5 +44,7 @@ for name, meta, res in rows:
     md.append(f"| {name} | {meta.get('property')} | `{meta.get('function', '')}` | {str(meta.get('needs', ''))[:160]} | {'yes' if ok else 'NO'} | {det} | {ob} |")
 n = len(rows)
 k = len([1 for _, _, r in rows if r.get("check_exit") == 1])
-md += ["", f"Detected: {k} of {n}.  Undetected changes live in functions that are not under contract (listed as not covered in DESIGN.md §4)."]
+md += ["", f"Detected by the checks as they are now: {k} of {n} (first round: seeds without `-r2-`; second round: `-r2-`). At the time the changes "
+       "arrived, 20 of the 32 first-round and 19 of the 38 second-round changes were detected; every miss was in a function that was not under "
+       "contract (or, three times, produced `undecided` instead of a violation); the contracts were then extended - see DESIGN.md §9 and §4."]
 (ROOT / "seeded" / "RESULTS.md").write_text("\n".join(md) + "\n")
